@@ -206,6 +206,7 @@ func workloads() []workload {
 		{"obj-builders", "model3d.Build*OBJ and CoordColorFunc.QuantizedTriangleColor worker pools", wOBJ},
 		{"first-use", "concurrent first calls of independent library entry points in a fresh process (package-level lazy state)", wFirstUse},
 		{"first-use-bezier", "model2d.BezierCurve.Eval / CachedEvalX of high-degree curves, first evaluations of each degree made concurrently in a fresh process", wFirstUseBezier},
+		{"uv-mapfn", "model3d.MeshUVMap.MapFn: one lookup function shared by all goroutines (the texture-fill pattern)", wMapFn},
 		{"joined-shared-child", "model3d.NewJoinedCollider: several goroutines build and query their own join over one shared child collider", wJoinedSharedChild},
 	}
 }
@@ -952,4 +953,55 @@ func wJoinedSharedChild(w *wctx) {
 		w.ops(10)
 	})
 	w.ops(49)
+}
+
+// wMapFn: the function returned by MeshUVMap.MapFn is called from many goroutines at once, as
+// CoordColorFunc.ToTexture does; every answer must equal the answer of the same function called
+// sequentially beforehand.
+func wMapFn(w *wctx) {
+	n := 12 + w.rng.Intn(12)
+	uvm := model3d.MeshUVMap{}
+	height := func(i, j int) float64 { return 0.3 * math.Sin(float64(i)*0.7+float64(j)*0.4) }
+	for i := 0; i < n; i++ {
+		for j := 0; j < n; j++ {
+			p := func(a, b int) (model3d.Coord3D, model2d.Coord) {
+				return model3d.XYZ(float64(a), float64(b), height(a, b)), model2d.XY(float64(a)/float64(n), float64(b)/float64(n))
+			}
+			a3, a2 := p(i, j)
+			b3, b2 := p(i+1, j)
+			c3, c2 := p(i+1, j+1)
+			d3, d2 := p(i, j+1)
+			uvm[&model3d.Triangle{a3, b3, c3}] = [3]model2d.Coord{a2, b2, c2}
+			uvm[&model3d.Triangle{a3, c3, d3}] = [3]model2d.Coord{a2, c2, d2}
+		}
+	}
+	fn := uvm.MapFn()
+	nq := 3000
+	qs := make([]model2d.Coord, nq)
+	for i := range qs {
+		qs[i] = model2d.XY(w.rng.Float64(), w.rng.Float64())
+	}
+	type ans struct {
+		p model3d.Coord3D
+		t *model3d.Triangle
+	}
+	want := make([]ans, nq)
+	for i, q := range qs {
+		p, t := fn(q)
+		want[i] = ans{p, t}
+	}
+	w.parallel(w.gos, func(g int, rng *rand.Rand) {
+		bad := 0
+		for k := 0; k < nq; k++ {
+			i := (k*7 + g*131) % nq
+			p, t := fn(qs[i])
+			if p != want[i].p || t != want[i].t {
+				bad++
+			}
+		}
+		if bad > 0 {
+			w.behav("model3d.MeshUVMap.MapFn/concurrent-equals-sequential", fmt.Sprintf("%d of %d lookups made concurrently differ from the same lookups made sequentially", bad, nq))
+		}
+		w.ops(nq)
+	})
 }
